@@ -37,6 +37,15 @@ CLAIMS = {
         note='Not decided: "never stops making progress" (liveness). Table entries classed ASSUMED/API-PRECONDITION are trusted with their stated reason and echoed in the evidence. '
              'A new, correct but unprovable panic-capable site on a peer-driven path is reported until reviewed (conservative side).',
         ref='DESIGN.md section 5 C16'),
+    'C03': dict(
+        technique='MIR path enumeration with branch conditions over publish_fn + who-constructs/who-writes rules (static analysis)',
+        text='Every return path of the four publish_fn coroutines is enumerated from MIR with its branch conditions: an ack is built only where the handler future completed '
+             'with Ok (v5 server: or try_ack mapped the error), PUBREC iff the QoS-2 test was true, PUBACK iff false, nothing without an id, a failing handler ends in Err; '
+             'the handler is invoked at one site outside any loop; PUBCOMP is constructed only in the PUBREL answer paths; dispatcher bodies write to the wire only through '
+             'their return value or the enumerated duplicate-id negative acks; the decoded PUBLISH reaches the handler unmodified (v5: alias resolution of topic only).',
+        note='Not decided: exactly-once across schedules (reduced to one future per request + one handler call per future + C04 queueing), payload byte equality (C10). '
+             'Known finding D18 (client role acknowledges QoS 2 with PUBACK) is listed in known_findings.json.',
+        ref='DESIGN.md section 5 C03'),
 }
 
 NA_REASONS = {}
